@@ -33,7 +33,10 @@ SCRATCH = "/var/tmp/verif-c16"
 
 
 def tok(path):
-    return "TOKEN=%s" % path
+    """the unique token a file holds: its path below the scratch root (so that the content does not depend on where the scratch root is)"""
+    import re
+    m = re.search(r"/r\d+_\d+/(.*)$", path)
+    return "TOKEN=%s" % (m.group(1) if m else path)
 
 
 def file_text(path, includes=()):
@@ -48,7 +51,7 @@ def file_text(path, includes=()):
 # generation
 # ---------------------------------------------------------------------------------------------
 def generate(rng, tier, run):
-    root = os.path.join(SCRATCH, "r%d_%d" % (os.getpid(), run))
+    root = os.path.join(SCRATCH, "r%07d_%d" % (os.getpid(), run))
     nroots = rng.randint(1, 4)
     roots = ["m%d" % i for i in range(nroots)]
     files = {}     # relative to root -> text
@@ -228,6 +231,7 @@ def plan_of(case):
             inc_from = os.path.join(root, case["roots"][0], "includer%d.sqf" % i)
             steps += [{"do": "load", "vm": "a", "text": 't__ ["inc", %d];\n#include "%s"\nt__ ["inc-done", %d];' % (i, r["path"], i), "name": inc_from},
                       {"do": "action", "vm": "a", "name": "start"}, {"do": "action_if_failed", "vm": "a", "name": "abort"}]
+    steps.append({"do": "fs", "op": "snapshot", "path": root})
     steps.append({"do": "fs", "op": "chdir", "path": "/"})
     steps.append({"do": "fs", "op": "rm", "path": root})
     return {"prop": PROP, "steps": steps, "clock": {"per_instr_ns": 1000, "per_poll_ns": 100, "idle_jump": True},
@@ -402,6 +406,11 @@ def judge(case, hs):
                 V.append(Violation("resolution", "found-unexpectedly:%s:include" % c0, "#include %r should fail but included %r" % (r["path"], inc[:2])))
     # nothing on disk may change
     snaps = [e for e in ev if e[1] == "fs_snapshot"]
+    if len(snaps) >= 2 and snaps[0][3] != snaps[-1][3]:
+        before = {x[0]: x for x in snaps[0][3]}
+        after = {x[0]: x for x in snaps[-1][3]}
+        diff = sorted(k for k in set(before) | set(after) if before.get(k) != after.get(k))
+        V.append(Violation("read-only", "disk-changed", "resolving and reading changed the disk: %r" % diff[:6]))
     out = {}
     for v in V:
         out.setdefault(v.key, v)
